@@ -166,6 +166,13 @@ def handleProp (vals : Int → List Nat) (s : State) (p : PropMsg) : State :=
 /-- `GetCompleteHighQC`: the id of HighQC and the votes stored for it -/
 def cert (s : State) : Nat × List Entry := (s.high.id, (logOf s.log s.high.id).getD [])
 
+/-- `ProcessProposal` → `reloadJustifyQC`: the justify the node puts into its next proposal message — the
+votes stored for HighQC; nothing for the root (first proposal); `none` = `JustifyVotesEmpty`, no proposal
+is made -/
+def nextJustify (s : State) : Option (Nat × List Entry) :=
+  if s.high.id == 0 then some (0, [])
+  else (logOf s.log s.high.id).map (fun es => (s.high.id, es))
+
 /-! ### histories -/
 
 inductive Ev where
